@@ -949,4 +949,173 @@ theorem check_parks_K (s : State) (hi : IdleK s) (hd : DatK s) (hle : ∀ w ∈ 
     rw [this, hgo]
     simp [toGo, S2]
 
+/-! ## Part 4: the check when no watcher misses a worker -/
+
+/-- a `gen.multi` whose children all returned `None` delivers a list, not an exception -/
+theorem multiResult_units (m : Nat) (results : List (Nat × Val)) (h : ∀ r ∈ results, r.2 = Val.unit) :
+    ∃ vs, multiResult m results = .list vs := by
+  unfold multiResult
+  simp only
+  have hnone : ((List.range m).map fun i => (results.lookup i).getD .unit).find? isExc = none := by
+    apply List.find?_eq_none.mpr
+    intro v hv
+    obtain ⟨i, _, rfl⟩ := List.mem_map.mp hv
+    cases hl : results.lookup i with
+    | none => simp [isExc]
+    | some x =>
+      have := h _ (lookup_mem hl)
+      simp only at this
+      simp [this, isExc]
+  rw [hnone]
+  exact ⟨_, rfl⟩
+
+/-- **the children of `manage_watchers`' `gen.multi`, every watcher complete**: every `manage_processes` returns at
+    once; the last result completes the `gen.multi`, `manage_watchers` ends, its future completes and releases the slot -/
+theorem children_full (n K i : Nat) : ∀ (us : List Watcher) (idx : Nat) (results : List (Nat × Val)) (s : State),
+    Building K i idx results [] s → DatK s → (∀ w ∈ us, w ∈ s.ws ∧ w.pids.length = w.np.toNat) → idx + us.length = K →
+    us ≠ [] →
+    ∃ c, (forIn (us.map fun w => Call.manageProcesses w.uid) idx (multiBody (exec (n + 4)) (i + 2)) : M Nat) s =
+      (K, { s with k := s.k.bump c, a := { s.a with slot := none }, frames := [], tops := [],
+                   doneVals := [(i, Val.unit)] }) := by
+  intro us
+  induction us with
+  | nil => intro idx results s _ _ _ _ hne; exact absurd rfl hne
+  | cons w0 rest ih =>
+    intro idx results s hB hd hus hidx _
+    obtain ⟨hw0, hfull⟩ := hus w0 (by simp)
+    have hd0 := hd
+    obtain ⟨hb, hk, hn, hall⟩ := hd
+    have hcount : results.length = idx := by have := hB.count; simpa using this
+    rw [List.map_cons, List.forIn_cons]
+    simp only [bind, multiBody]
+    rw [exec_call (n + 3) _ _ s hb]
+    simp only [runCall]
+    rw [manageProcesses_K_full (exec (n + 3)) w0 _ s hd0 hw0 hfull]
+    by_cases hr : rest = []
+    · -- the last one: everything unwinds
+      subst hr
+      have hK : K = idx + 1 := by simpa using hidx.symm
+      obtain ⟨vs, hvs⟩ := multiResult_units K (results ++ [(idx, Val.unit)]) (by
+        intro r hr
+        rcases List.mem_append.mp hr with hr | hr
+        · exact hB.units r hr
+        · simp only [List.mem_cons, List.mem_nil_iff, or_false] at hr
+          subst hr; rfl)
+      refine ⟨2 * w0.pids.length, ?_⟩
+      have hge : K ≤ results.length + 1 := by omega
+      have hfr := hB.frames
+      have hps : pkFrames i ([] : List PK) = [] := rfl
+      rw [hps] at hfr
+      obtain ⟨k, a, objs, ws, frames, sleepers, tops, ready, dv, nid, log, blocked⟩ := s
+      have htops := hB.tops
+      have hready := hB.ready
+      have hdv := hB.doneVals
+      simp only at hfr htops hready hdv hb
+      subst hfr htops hready hdv hb
+      simp only [State.bump, deliver, bind, getS, List.find?_cons]
+      simp [removeFrame, modS, hge, hvs]
+      rw [exec_resume_mk]
+      simp [runResume, deliver, bind, getS, removeFrame, modS]
+      rw [exec_resume_mk]
+      simp [runResume, manageWatchersTail, deliver, deliverTop, finishTop, deliverCbs, runTopCb, setSlot, bind, getS,
+        getA, modS, modA, pure]
+      omega
+    · -- not the last one: recorded
+      have hnot : results.length + 1 < K := by
+        have := List.length_pos_iff.mpr hr
+        simp only [List.length_cons] at hidx
+        omega
+      rw [deliver_record_B (exec (n + 3)) K i idx results [] (s.bump (2 * w0.pids.length)) hB.frames
+        (fun p hp => by cases hp) hnot]
+      simp only
+      let s1 : State := { s.bump (2 * w0.pids.length) with frames :=
+        { fid := i + 1, k := .manageWatchersTail false, parent := .top i } ::
+        { fid := i + 2, k := .multi K (results ++ [(idx, Val.unit)]), parent := .frame (i + 1) 0 } :: pkFrames i [] }
+      have hB1 : Building K i (idx + 1) (results ++ [(idx, Val.unit)]) [] s1 := by
+        refine ⟨rfl, hB.sleepers, hB.tops, hB.ready, hB.doneVals, ?_, ?_, hB.nid, hB.ids, hB.sorted, hB.slot, hB.loopStop,
+          hB.stopping, hB.restarting⟩
+        · simp only [List.length_append, List.length_cons, List.length_nil]; omega
+        · intro r hr
+          rcases List.mem_append.mp hr with hr | hr
+          · exact hB.units r hr
+          · simp only [List.mem_cons, List.mem_nil_iff, or_false] at hr
+            subst hr; rfl
+      have hd1 : DatK s1 := hd0.of_kernel (hk.bump _) rfl rfl rfl
+      obtain ⟨c, hc⟩ := ih (idx + 1) (results ++ [(idx, Val.unit)]) s1 hB1 hd1 (fun w hw => hus w (by simp [hw]))
+        (by simp at hidx ⊢; omega) hr
+      refine ⟨2 * w0.pids.length + c, ?_⟩
+      rw [hc]
+      simp [s1, State.bump, Kernel.bump_bump]
+
+/-- **the periodic check with several watchers, none of them missing a worker**: it completes within the step
+    and changes nothing but the kernel's call counter -/
+theorem check_idle_K (s : State) (hi : IdleK s) (hd : DatK s) (hfull : ∀ w ∈ s.ws, w.pids.length = w.np.toNat)
+    (hne : s.ws ≠ []) :
+    IdleK (step s .check) ∧ DatK (step s .check) ∧ (step s .check).ws = s.ws ∧ (step s .check).log = s.log := by
+  have hd0 := hd
+  obtain ⟨hb, hk, hn, hall⟩ := hd
+  obtain ⟨hfr, hsl, htops, hrd, hslot, hls, hstp, hrst, hwat⟩ := hi
+  obtain ⟨k, a, objs, ws, frames, sleepers, tops, ready, dv, i, log, blocked⟩ := s
+  simp only at hb hk hn hall hfr hsl htops hrd hslot hls hstp hrst hwat hfull hne
+  subst hb hfr hsl htops hrd
+  have hperm := sortWatchers_perm ws true
+  have hord_mem : ∀ w ∈ sortWatchers ws true, w ∈ ws := fun w hw => hperm.mem_iff.mp hw
+  have hord_len : (sortWatchers ws true).length = ws.length := hperm.length_eq
+  have hordne : sortWatchers ws true ≠ [] := by
+    intro h
+    have := congrArg List.length h
+    rw [hord_len] at this
+    exact hne (List.length_eq_zero_iff.mp this)
+  have hcne : (sortWatchers ws true).map (fun w => Call.manageProcesses w.uid) ≠ [] := by
+    intro h
+    exact hordne (List.map_eq_nil_iff.mp h)
+  let S2 : State := ⟨k.beginStep.bump 1, { a with slot := some "manage_watchers" }, objs, ws,
+    [{ fid := i + 1, k := .manageWatchersTail false, parent := .top i },
+     { fid := i + 2, k := .multi ws.length [], parent := .frame (i + 1) 0 }], [],
+    [{ tid := i, cbs := [.release] }], [], [], i + 3, log, false⟩
+  have hB2 : Building ws.length i 0 [] [] S2 :=
+    ⟨rfl, rfl, rfl, rfl, rfl, rfl, (fun r hr => by cases hr), Nat.le_refl _, (fun p hp => by cases hp), List.Pairwise.nil, rfl,
+      hls, hstp, hrst⟩
+  have hd2 : DatK S2 := ⟨rfl, hk.beginStep.bump 1, hn, hall⟩
+  obtain ⟨c, hloop⟩ := children_full 99995 ws.length i (sortWatchers ws true) 0 [] S2 hB2 hd2
+    (fun w hw => ⟨hord_mem w hw, hfull w (hord_mem w hw)⟩) (by omega) hordne
+  have hstep : stepM .check (⟨k, a, objs, ws, [], [], [], [], dv, i, log, false⟩ : State) =
+      ((), ⟨(k.beginStep.bump 1).bump c, { a with slot := none }, objs, ws, [], [], [], [], [(i, Val.unit)], i + 3, log, false⟩) := by
+    rw [stepM_eq _ _ rfl]
+    have hop : stepOp .check (updK Kernel.beginStep (⟨k, a, objs, ws, [], [], [], [], dv, i, log, false⟩ : State)).2 =
+        ((), ⟨(k.beginStep.bump 1).bump c, { a with slot := none }, objs, ws, [], [], [],
+          [.topCb .watch .unit], [(i, Val.unit)], i + 3, log, false⟩) := by
+      simp only [stepOp, bind, clearDone, modS, updK, runK]
+      rw [syncCoroutine_free _ _ _ hrst hslot]
+      simp only [fuelDefault]
+      have e1 : (100000 : Nat) = 99999 + 1 := rfl
+      rw [e1, exec_call_mk]
+      simp only [runCall, List.nil_append]
+      rw [manageWatchers_eq_K (exec 99999) _ _ ⟨rfl, hk.beginStep, hn, hall⟩ hstp hwat]
+      rw [awaitMulti_ne _ _ hcne]
+      simp only [List.length_map, hord_len, List.nil_append]
+      have hS2 : (⟨k.beginStep.bump 1, { a with slot := some "manage_watchers" }, objs, ws,
+          [{ fid := i + 1, k := .manageWatchersTail false, parent := .top i },
+           { fid := i + 1 + 1, k := .multi ws.length [], parent := .frame (i + 1) 0 }],
+          [], [{ tid := i, cbs := [.release] }], [], [], i + 1 + 2, log, false⟩ : State) = S2 := rfl
+      rw [hS2]
+      erw [hloop]
+      simp [S2, armFrame, armTop, addDoneCallback, modS, bind, getS, enqueue]
+    rw [hop]
+    have e1 : (100000 : Nat) = 99999 + 1 := rfl
+    have e2 : (99999 : Nat) = 99998 + 1 := rfl
+    have hs : settle 100000 (⟨(k.beginStep.bump 1).bump c, { a with slot := none }, objs, ws, [], [], [],
+          [.topCb .watch .unit], [(i, Val.unit)], i + 3, log, false⟩ : State) =
+        ((), ⟨(k.beginStep.bump 1).bump c, { a with slot := none }, objs, ws, [], [], [], [], [(i, Val.unit)], i + 3, log, false⟩) := by
+      rw [e1, settle_cons_mk]
+      simp [runReady1, runTopCb, pure]
+      rw [e2]
+      exact settle_nil _ _ rfl
+    rw [stepTail_eq _ (by rw [hs]; exact hls), hs]
+  have hres : step (⟨k, a, objs, ws, [], [], [], [], dv, i, log, false⟩ : State) .check =
+      ⟨(k.beginStep.bump 1).bump c, { a with slot := none }, objs, ws, [], [], [], [], [(i, Val.unit)], i + 3, log, false⟩ := by
+    unfold step; rw [hstep]
+  rw [hres]
+  exact ⟨⟨rfl, rfl, rfl, rfl, rfl, hls, hstp, hrst, hwat⟩, ⟨rfl, (hk.beginStep.bump 1).bump c, hn, hall⟩, rfl, rfl⟩
+
 end Circus.Core
